@@ -108,18 +108,28 @@ def outcome(alg, D, s, past=None):
         random.seed(5)
     try:
         cons = alg.compute_consensus_rankings(ds, sc, True)
-        univ = {e.value for e in ds.universe}
-        ok = len(cons.consensus_rankings) == 1 and all(len(b) > 0 for b in cons.consensus_rankings[0].buckets) and \
-            sorted(e.value for b in cons.consensus_rankings[0].buckets for e in b) == sorted(univ)
-        return 0 if ok else 2
+        # what came back, as it is: whether it is a well-formed consensus of the universe is decided by the Coq judge (code_of)
+        return {"U": [e.value for e in ds.universe], "cons": [[[e.value for e in b] for b in r.buckets] for r in cons.consensus_rankings]}
     except Exception as e:
         return 1 if type(e).__name__ in REFUSALS else 2
+
+
+def outcome_term(o):
+    if o == 1:
+        return "ORefused"
+    if o == 2:
+        return "ORaised"
+    return f"(OReturned {natlist(o['U'])} {clist([ranking_term(r) for r in o['cons']])})"
+
+
+def outcome_key(o):
+    return o if isinstance(o, int) else 0
 
 
 class Applic(Suite):
     name = "applicability"
     imports = ["Scheme", "Applicability", "Judge.JC14"]
-    judge = "judge_applic"
+    judge = "judge_applic_obs"
 
     def gen(self, tier, rng):
         sch = schemes(rng)
@@ -160,13 +170,13 @@ class Applic(Suite):
         return {"pred": pred, "oc": oc, "oi": outcome(build(case["alg"]), inc, case["s"])}
 
     def term(self, case, out):
-        return f"({alg_term(case['alg'])}, {scheme_term(case['s'])}, {z(out['pred'])}, {z(out['oc'])}, {z(out['oi'])})"
+        return f"({alg_term(case['alg'])}, {scheme_term(case['s'])}, {z(out['pred'])}, {outcome_term(out['oc'])}, {outcome_term(out['oi'])})"
 
     def known(self, case, out):
         return "F5"
 
     def stats(self, case, out, acc):
-        k = f"pred={out['pred']},complete={out['oc']},incomplete={out['oi']}"
+        k = f"pred={out['pred']},complete={outcome_key(out['oc'])},incomplete={outcome_key(out['oi'])}"
         acc[k] = acc.get(k, 0) + 1
 
 
